@@ -114,6 +114,10 @@ func codeEq(a, b []Part) (value, bool) {
 		if x.Kind == PCode && (y.Kind == PInt || y.Kind == PCell) {
 			return false, true // an identifier is never a number / a single non-letter cell is handled by the lexer harness
 		}
+		if x.Kind == PCode && y.Kind == PLit && codeClass(x.Lit) == 'T' {
+			// a token-type / fixed-literal atom ranges over an explicit set of literals
+			return SymBool{T: fmt.Sprintf("(= %s %s)", x.Lit, intLit(InternLit(y.Lit)))}, true
+		}
 		if x.Kind == PCode && y.Kind == PLit {
 			if !identLitRe.MatchString(y.Lit) || strings.HasPrefix(y.Lit, "zq") || reservedWords[y.Lit] {
 				return false, true
@@ -213,4 +217,20 @@ func NameOfCode(v int64) string {
 		return s
 	}
 	return fmt.Sprintf("Zv%dq", v)
+}
+
+// NewEnumCode declares an Int-coded atom (class 'T') that ranges over an
+// explicit set of literals.
+func (c *Ctx) NewEnumCode(hint string, domain []string) string {
+	name := c.fresh(fmt.Sprintf("cT_%s_", sanitize(hint)))
+	c.S.Declare(name, "Int")
+	c.CodeVars = append(c.CodeVars, name)
+	var alts, lens []string
+	for _, d := range domain {
+		alts = append(alts, fmt.Sprintf("(= %s %s)", name, intLit(InternLit(d))))
+		lens = append(lens, fmt.Sprintf("(=> (= %s %s) (= (clen %s) %d))", name, intLit(InternLit(d)), name, len(d)))
+	}
+	c.addPC(orTerm(alts...))
+	c.addPC(andTerm(lens...))
+	return name
 }
